@@ -141,6 +141,21 @@ def _argmax(ex, st, args, kwargs, node):
     return m
 
 
+@model('.argmin', 'numpy.argmin')
+def _argmin(ex, st, args, kwargs, node):
+    """assumed: argmin(a) (1-D, non-empty) is the FIRST index of a smallest element"""
+    c = ex.c
+    a = arr(ex, st, args[0])
+    if a is None or a.ndim != 1:
+        raise Unsupported('argmin of non 1-D')
+    ex.oblige('safe.nonempty', st, to_int(a.shape[0]) >= 1, node)
+    m = c.fresh('argmin', INT)
+    st.assume(m >= 0, m < to_int(a.shape[0]))
+    st.assume(c.Forall(0, a.shape[0], lambda j: a.elem((j,)) >= a.elem((m,))))
+    st.assume(c.Forall(0, m, lambda j: a.elem((j,)) > a.elem((m,))))
+    return m
+
+
 @model('numpy.interp')
 def _interp(ex, st, args, kwargs, node):
     """assumed: np.interp(x, xp, fp) for non-decreasing xp (n >= 1; a call-site obligation): fp[0] below xp[0], fp[n-1] at
@@ -183,6 +198,16 @@ def _interp(ex, st, args, kwargs, node):
         st.assume(z3.ForAll([kk, ii, jj], z3.Implies(
             z3.And(0 <= kk, kk < to_int(W), 0 <= ii, ii < to_int(last), jj == ii + 1, XP.elem((ii,)) <= X_(kk), X_(kk) < XP.elem((jj,))),
             R.elem((kk,)) == FP.elem((ii,)) + (X_(kk) - XP.elem((ii,))) * ((FP.elem((jj,)) - FP.elem((ii,))) / (XP.elem((jj,)) - XP.elem((ii,)))))))
+        # consequence of the piecewise definition (non-decreasing xp): every value lies between two neighbouring fp --
+        # stated with a Skolem bracket index because deriving it needs a discrete intermediate-value induction
+        bidx = c.func(c.fresh('interp_bracket').decl().name(), INT, INT)
+        nxt = lambda b: z3.If(b + 1 <= to_int(last), b + 1, to_int(last))
+        lo2 = lambda a, b: z3.If(a <= b, a, b)
+        hi2 = lambda a, b: z3.If(a >= b, a, b)
+        st.assume(c.Forall(0, W, lambda k: z3.And(
+            0 <= bidx(k), bidx(k) <= to_int(last),
+            lo2(to_real(FP.elem((bidx(k),))), to_real(FP.elem((nxt(bidx(k)),)))) <= R.elem((k,)),
+            R.elem((k,)) <= hi2(to_real(FP.elem((bidx(k),))), to_real(FP.elem((nxt(bidx(k)),)))))))
         c.last_interp = R
         return st.alloc(c, R)
     if cn is None:
@@ -1005,8 +1030,11 @@ def _int(ex, st, args, kwargs, node):
     if is_sym(v):
         if z3.is_int(v):
             return v
-        # truncation toward zero
-        return z3.If(v >= 0, z3.ToInt(v), -z3.ToInt(-v))
+        # truncation toward zero; named by a fresh constant so that the (non-linear) argument is not copied into
+        # every term that later depends on the result
+        k = ex.c.fresh('int', INT)
+        st.assume(k == z3.If(v >= 0, z3.ToInt(v), -z3.ToInt(-v)))
+        return k
     raise Unsupported('int(%r)' % (v,))
 
 
